@@ -18,6 +18,7 @@ import SharkVerif.Props.C03
 import SharkVerif.Lemmas.Regroup
 import SharkVerif.Lemmas.View
 import SharkVerif.Lemmas.Subset
+import SharkVerif.Lemmas.Blocks
 namespace SharkVerif.C12
 open SharkVerif.CheckedNat SharkVerif.Gen.BatchArith SharkVerif.BatchArith SharkVerif.Dataset SharkVerif.CV
 
@@ -416,6 +417,146 @@ theorem validation_parts_concat (d : Data ε) (counts : List Nat) (hnb : d.numbe
         (indexedSubset_flat d v f hv).1]
   rw [key _ _ hvs, hcover, ← hnb, Data.numberOfBatches, flatMap_range_getD]
   rfl
+
+/-! ## F. every fold's validation part holds exactly the elements requested for it -/
+
+theorem obs0_sum (bs : Nat) (hbs : 0 < bs) (n : Nat) : (obs0 bs n).sum = n := by
+  unfold obs0
+  by_cases h0 : n = 0
+  · simp [h0]
+  · simp only [h0, if_false]
+    obtain ⟨l, hl, hs⟩ := C03.optimalBatchSizes_sum (Nat.pos_of_ne_zero h0) hbs
+    rw [C03.optimalBatchSizes_defined (Nat.pos_of_ne_zero h0) hbs] at hl
+    cases hl; exact hs
+
+theorem foldRanges_eq_segRanges (cs : List Nat) : ∀ acc, foldRanges cs acc = segRanges cs acc := by
+  induction cs with
+  | nil => intro acc; rfl
+  | cons c cs ih => intro acc; simp [foldRanges, segRanges, ih]
+
+/-- reading the batches of fold p out of a dataset that was cut from the concatenation of per-fold blocks -/
+theorem fold_batches_read {γ : Type} (bs : Nat) (hbs : 0 < bs) (blocks : List (List γ)) (p : Nat) (r : List Nat)
+    (hr : (foldRanges (blocks.map fun blk => (obs0 bs blk.length).length) 0)[p]? = some r) :
+    r.flatMap (fun i => (splitBySizes blocks.flatten (blocks.flatMap fun blk => obs0 bs blk.length)).getD i []) =
+      blocks.getD p [] := by
+  rw [splitBySizes_blocks (fun blk => obs0 bs blk.length) (fun blk => obs0_sum bs hbs blk.length)]
+  have hseg : (blocks.flatMap fun blk => splitBySizes blk (obs0 bs blk.length)) =
+      (blocks.map fun blk => splitBySizes blk (obs0 bs blk.length)).flatten := by
+    rw [List.flatMap_def]
+  rw [hseg]
+  have hcounts : (blocks.map fun blk => (obs0 bs blk.length).length) =
+      ((blocks.map fun blk => splitBySizes blk (obs0 bs blk.length)).map List.length) := by
+    rw [List.map_map]
+    apply List.map_congr_left
+    intro blk _
+    simp [splitBySizes_length]
+  rw [hcounts, foldRanges_eq_segRanges] at hr
+  have := segRanges_read (blocks.map fun blk => splitBySizes blk (obs0 bs blk.length)) [] p r (by simpa using hr)
+  simp only [List.nil_append] at this
+  rw [List.flatMap_def, this]
+  by_cases hp : p < blocks.length
+  · simp only [List.getD_eq_getElem?_getD, List.getElem?_map, List.getElem?_eq_getElem hp, Option.map_some,
+      Option.getD_some]
+    exact splitBySizes_flatten _ _ (obs0_sum bs hbs _)
+  · simp [List.getD_eq_getElem?_getD, List.getElem?_eq_none (Nat.le_of_not_lt hp)]
+
+theorem filter_snd_zip_length {γ : Type} (els : List γ) (assign : List (Nat × Nat)) (hlen : els.length = assign.length)
+    (p : Nat) :
+    ((List.zip els (assign.map (·.2))).filter (fun x => x.2 = p)).length = (assign.filter (fun a => a.2 = p)).length := by
+  rw [← List.countP_eq_length_filter, ← List.countP_eq_length_filter]
+  have h1 : ((List.zip els (assign.map (·.2))).map (·.2)) = assign.map (·.2) := by
+    apply List.map_snd_zip; simp [hlen]
+  have h2 := List.countP_map (p := fun t : Nat => decide (t = p)) (f := fun x : γ × Nat => x.2)
+    (l := List.zip els (assign.map (·.2)))
+  have h3 := List.countP_map (p := fun t : Nat => decide (t = p)) (f := fun x : Nat × Nat => x.2) (l := assign)
+  rw [h1] at h2
+  rw [h3] at h2
+  exact h2.symm
+
+/-- **indexed_puts_in_requested_fold** (model `regroup`, i.e. createCVIndexed / createCVFullyIndexed /
+createCVIID / createCVSameSizeBalanced): whenever `folds.validation(p)` can be formed, its (input, label)
+sequence is exactly the elements that were assigned to fold `p`, in processing order, each with the label it was
+picked with — no element of another fold, none missing -/
+theorem indexed_puts_in_requested_fold (set : LabeledData ι κ) (k : Nat) (assign : List (Nat × Nat)) (bs : Nat)
+    (hbs : 0 < bs) (hz : optimalBatchSizes 0 bs = some []) (f : CVFolds ι κ) (h : regroup set k assign bs = .ok f)
+    (p : Nat) (hp : p < k) (v : LabeledData ι κ) (hv : f.validation p = .ok v) :
+    ∃ els, pick set (assign.map (·.1)) = .ok els ∧
+      C03.pairs v = ((List.zip els (assign.map (·.2))).filter (·.2 = p)).map (·.1) := by
+  simp only [regroup, bind_ok, require_ok, ofOpt_ok, List.all_eq_true, decide_eq_true_eq] at h
+  obtain ⟨_, hall, ⟨nb, starts', sizes⟩, hbp, els, hpick, hfolds⟩ := h
+  have hlen := pick_length set _ els hpick
+  simp only [List.length_map] at hlen
+  refine ⟨els, hpick, ?_⟩
+  obtain ⟨hspec, _⟩ := batchPartitioning_with_empty
+    ((List.range k).map fun p => (assign.filter (fun a => a.2 = p)).length) bs hbs hz
+  have hbp' : batchPartitioning ((List.range k).map fun p => (assign.filter (fun a => decide (a.2 = p))).length) [] [] bs
+      = some (nb, starts', sizes) := hbp
+  rw [hspec] at hbp'
+  simp only [Option.some.injEq, Prod.mk.injEq] at hbp'
+  obtain ⟨_, hst, hsizes⟩ := hbp'
+  -- the per-fold blocks
+  let blk : Nat → List (ι × κ) := fun q => ((List.zip els (assign.map (·.2))).filter (·.2 = q)).map (·.1)
+  have hblen : ∀ q, (blk q).length = (assign.filter (fun a => decide (a.2 = q))).length := by
+    intro q; simp only [blk, List.length_map]; exact filter_snd_zip_length els assign hlen q
+  have hsz : ∀ {β : Type} (π : ι × κ → β),
+      (((List.range k).map fun q => (blk q).map π).flatMap fun b => obs0 bs b.length) = sizes := by
+    intro β π
+    rw [← hsizes, List.flatMap_def, List.flatMap_def, List.map_map, List.map_map]
+    congr 1
+    apply List.map_congr_left
+    intro q _
+    simp [hblen q]
+  have hcnt : ∀ {β : Type} (π : ι × κ → β),
+      (((List.range k).map fun q => (blk q).map π).map fun b => (obs0 bs b.length).length) =
+      ((List.range k).map fun q => (assign.filter (fun a => decide (a.2 = q))).length).map fun n => (obs0 bs n).length := by
+    intro β π
+    rw [List.map_map, List.map_map]
+    apply List.map_congr_left
+    intro q _
+    simp [hblen q]
+  have hflat : ∀ {β : Type} (π : ι × κ → β),
+      ((List.range k).map fun q => (blk q).map π).flatten =
+      (((List.range k).flatMap fun q => blk q).map π) := by
+    intro β π
+    rw [List.map_flatMap, List.flatMap_def]
+  -- the folds
+  simp only [CVFolds.ofStarts, bind_ok, ofOpt_ok, pure_ok] at hfolds
+  obtain ⟨folds, hfs, rfl⟩ := hfolds
+  rw [← hst] at hfs
+  have hnb : (splitBySizes (((List.range k).flatMap fun q => blk q).map (·.1)) sizes).length =
+      (((List.range k).map fun q => (assign.filter (fun a => decide (a.2 = q))).length).map
+        fun n => (obs0 bs n).length).sum := by
+    rw [splitBySizes_length, ← hsizes, List.length_flatMap]
+  have hfr := foldsFromStarts_starts
+    (((List.range k).map fun q => (assign.filter (fun a => decide (a.2 = q))).length).map fun n => (obs0 bs n).length) 0
+  simp only [Nat.zero_add] at hfr
+  have hfs' : CVFolds.foldsFromStarts _ _ = some folds := hfs
+  simp only [LabeledData.numberOfBatches, Data.numberOfBatches] at hfs'
+  rw [hnb, hfr] at hfs'
+  simp only [Option.some.injEq] at hfs'
+  subst hfs'
+  -- the validation part
+  simp only [CVFolds.validation, CVFolds.validationFoldIndices, bind_ok, ofOpt_ok, LabeledData.indexedSubset,
+    LabeledData.mk'] at hv
+  obtain ⟨r, hr, i, hi, l, hl, hmk⟩ := hv
+  split at hmk
+  · simp only [Except.ok.injEq] at hmk; subst hmk
+    have hif := (indexedSubset_flat _ _ _ hi).1
+    have hlf := (indexedSubset_flat _ _ _ hl).1
+    have hr1 := hr
+    rw [← hcnt (·.1)] at hr1
+    have hr2 := hr
+    rw [← hcnt (·.2)] at hr2
+    have hI := fold_batches_read bs hbs ((List.range k).map fun q => (blk q).map (·.1)) p r hr1
+    have hL := fold_batches_read bs hbs ((List.range k).map fun q => (blk q).map (·.2)) p r hr2
+    rw [hsz, hflat] at hI hL
+    simp only [C03.pairs]
+    rw [hif, hlf]
+    show List.zip (r.flatMap fun j => (splitBySizes _ sizes).getD j []) (r.flatMap fun j => (splitBySizes _ sizes).getD j []) = _
+    rw [hI, hL]
+    simp only [List.getD_eq_getElem?_getD, List.getElem?_map, List.getElem?_range hp, Option.map_some, Option.getD_some]
+    exact zip_map_fst_snd _
+  · simp at hmk
 
 /-! ## non-vacuity -/
 example : batchPartitioning [3, 5] [] [] 2 = some (5, [0, 2], [2, 1, 2, 2, 1]) := by decide
